@@ -49,11 +49,16 @@
 //	parseFilter: parseExpression -> filterCond, parseProjectionRHS -> filterRhs
 //	Parse: parseExpression -> top
 //
-// functions.go: in newFunctionCaller, the map[string]functionEntry literal of the
-// only assignment to caller.functionTable; per element, in source order: the key
-// string; `arguments` ([]argSpec of {types: []jpType{...}, variadic: true|false},
-// absent = []); `handler` (a known jpf* identifier, required); `hasExpRef`
-// (true|false, absent = false); `name` is ignored; any other field is refused.
+// functions.go: in newFunctionCaller, the value the `functionTable` field receives, given in
+// exactly one place (`<x>.functionTable = E`, or `functionTable: E` in a composite literal).  E is
+// a map[string]functionEntry literal, or a local variable initialised with such a literal or with
+// make(map[string]functionEntry, ...) and filled by top-level statements `E["name"] = entry` (any
+// other use of that variable is refused).  Per entry, in source order: the key string; `arguments`
+// ([]argSpec of {types: []jpType{...}, variadic: true|false}, absent = []); `handler` (a known
+// jpf* identifier, required); `hasExpRef` (true|false, absent = false); `name` is ignored; any
+// other field is refused.  An identifier standing where an entry, an argSpec, a []argSpec or a
+// []jpType literal is expected is replaced by its binding if it is bound exactly once in the
+// function, never reassigned and never has its address taken.
 //
 // Also refused: any assignment to, ++/-- of, or delete() from an extracted table
 // elsewhere in these three files (the literal would then not be the whole truth).
@@ -522,28 +527,142 @@ func extractParser(f *ast.File) *parserTable {
 
 // ---- function table -----------------------------------------------------------
 
+// localBindings: identifiers bound exactly once in body (`x := E`, `var x = E`, also inside a
+// parenthesised var block) and never assigned again; an identifier used where a literal is
+// expected is replaced by its binding.
+func localBindings(body *ast.BlockStmt) map[string]ast.Expr {
+	bound, count := map[string]ast.Expr{}, map[string]int{}
+	ast.Inspect(body, func(n ast.Node) bool {
+		switch s := n.(type) {
+		case *ast.AssignStmt:
+			for i, l := range s.Lhs {
+				if id, ok := l.(*ast.Ident); ok {
+					count[id.Name]++
+					if s.Tok == token.DEFINE && len(s.Lhs) == len(s.Rhs) {
+						bound[id.Name] = s.Rhs[i]
+					}
+				}
+			}
+		case *ast.ValueSpec:
+			for i, id := range s.Names {
+				count[id.Name]++
+				if i < len(s.Values) {
+					bound[id.Name] = s.Values[i]
+				}
+			}
+		case *ast.IncDecStmt:
+			if id, ok := s.X.(*ast.Ident); ok {
+				count[id.Name] += 2
+			}
+		case *ast.UnaryExpr:
+			if id, ok := s.X.(*ast.Ident); ok && s.Op == token.AND {
+				count[id.Name] += 2 // address taken: could be written through the pointer
+			}
+		}
+		return true
+	})
+	for name, c := range count {
+		if c != 1 {
+			delete(bound, name)
+		}
+	}
+	return bound
+}
+
+func deref(e ast.Expr, bound map[string]ast.Expr) ast.Expr {
+	for i := 0; i < 4; i++ {
+		id, ok := e.(*ast.Ident)
+		if !ok {
+			return e
+		}
+		b, ok := bound[id.Name]
+		if !ok {
+			return e
+		}
+		e = b
+	}
+	return e
+}
+
+// extractFunctions reads the function table built in newFunctionCaller.  The table is the value
+// given to the `functionTable` field (by `caller.functionTable = E`, or by `functionTable: E`
+// in a composite literal); E is a map[string]functionEntry literal, or a local variable
+// initialised with such a literal or with make(...) and filled by top-level statements
+// `E["name"] = functionEntry{...}`.  Locally bound identifiers standing for argSpec / []argSpec /
+// []jpType literals are replaced by their (single) binding.
 func extractFunctions(f *ast.File) []string {
+	body := funcBody(f, "newFunctionCaller")
+	bound := localBindings(body)
 	var rhs []ast.Expr
-	ast.Inspect(funcBody(f, "newFunctionCaller"), func(n ast.Node) bool {
-		a, ok := n.(*ast.AssignStmt)
-		for i := 0; ok && i < len(a.Lhs); i++ {
-			if root(a.Lhs[i]) != "caller.functionTable" {
-				continue
+	ast.Inspect(body, func(n ast.Node) bool {
+		switch a := n.(type) {
+		case *ast.AssignStmt:
+			for i := 0; i < len(a.Lhs); i++ {
+				if sel, ok := a.Lhs[i].(*ast.SelectorExpr); ok && sel.Sel.Name == "functionTable" {
+					if a.Tok != token.ASSIGN || len(a.Lhs) != 1 || len(a.Rhs) != 1 {
+						die("functionTable", "statement at %s is not a plain `<x>.functionTable = <value>`", at(a))
+					}
+					rhs = append(rhs, a.Rhs[0])
+				}
 			}
-			if a.Tok != token.ASSIGN || len(a.Lhs) != 1 || len(a.Rhs) != 1 || src(a.Lhs[0]) != "caller.functionTable" {
-				die("caller.functionTable", "statement at %s is not a plain `caller.functionTable = <literal>`", at(a))
+		case *ast.KeyValueExpr:
+			if id, ok := a.Key.(*ast.Ident); ok && id.Name == "functionTable" {
+				rhs = append(rhs, a.Value)
 			}
-			rhs = append(rhs, a.Rhs[0])
 		}
 		return true
 	})
 	if len(rhs) != 1 {
-		die("caller.functionTable", "expected exactly one assignment in newFunctionCaller, found %d", len(rhs))
+		die("functionTable", "expected exactly one place in newFunctionCaller where the functionTable field gets its value, found %d", len(rhs))
+	}
+	type entry struct{ k, v ast.Expr }
+	var entries []entry
+	addLit := func(e ast.Expr) {
+		for _, el := range lit(e, "map[string]functionEntry", false, "functionTable") {
+			k, v := kv(el, "functionTable")
+			entries = append(entries, entry{k, v})
+		}
+	}
+	if id, ok := rhs[0].(*ast.Ident); ok {
+		init, ok := bound[id.Name]
+		if !ok {
+			die("functionTable", "`%s` is not a local variable with a single binding", id.Name)
+		}
+		if c, isCall := init.(*ast.CallExpr); isCall && src(c.Fun) == "make" && len(c.Args) >= 1 && src(c.Args[0]) == "map[string]functionEntry" {
+			// empty to begin with
+		} else {
+			addLit(init)
+		}
+		uses := 0
+		ast.Inspect(body, func(n ast.Node) bool {
+			if x, ok := n.(*ast.Ident); ok && x.Name == id.Name {
+				uses++
+			}
+			return true
+		})
+		fills := 0
+		for _, st := range body.List {
+			a, ok := st.(*ast.AssignStmt)
+			if !ok || len(a.Lhs) != 1 || len(a.Rhs) != 1 || a.Tok != token.ASSIGN {
+				continue
+			}
+			ix, ok := a.Lhs[0].(*ast.IndexExpr)
+			if !ok || src(ix.X) != id.Name {
+				continue
+			}
+			entries = append(entries, entry{ix.Index, a.Rhs[0]})
+			fills++
+		}
+		if uses != fills+2 { // its declaration, its fills, its one use as the field value
+			die("functionTable", "`%s` is used %d times besides %d top-level `%s[key] = entry` statements: some use is not understood", id.Name, uses-fills, fills, id.Name)
+		}
+	} else {
+		addLit(rhs[0])
 	}
 	var out []string
 	seen := map[string]bool{}
-	for _, e := range lit(rhs[0], "map[string]functionEntry", false, "caller.functionTable") {
-		k, v := kv(e, "functionTable")
+	for _, e := range entries {
+		k, v := e.k, deref(e.v, bound)
 		kb, ok := k.(*ast.BasicLit)
 		key, err := strconv.Unquote(src(k))
 		if !ok || kb.Kind != token.STRING || err != nil || seen[key] || strings.IndexFunc(key, func(r rune) bool {
@@ -556,13 +675,13 @@ func extractFunctions(f *ast.File) []string {
 		fl := fields(lit(v, "functionEntry", true, what), what, "name", "arguments", "handler", "hasExpRef")
 		var args []string
 		if a, ok := fl["arguments"]; ok {
-			for _, spec := range lit(a, "[]argSpec", false, what+".arguments") {
-				sf := fields(lit(spec, "argSpec", true, what+" argSpec"), what+" argSpec", "types", "variadic")
+			for _, spec := range lit(deref(a, bound), "[]argSpec", false, what+".arguments") {
+				sf := fields(lit(deref(spec, bound), "argSpec", true, what+" argSpec"), what+" argSpec", "types", "variadic")
 				if sf["types"] == nil {
 					die(what, "argSpec at %s has no types field", at(spec))
 				}
 				var tys []string
-				for _, ty := range lit(sf["types"], "[]jpType", false, what+" types") {
+				for _, ty := range lit(deref(sf["types"], bound), "[]jpType", false, what+" types") {
 					tys = append(tys, named(ty, typeNames, what+" types"))
 				}
 				variadic := false
@@ -573,7 +692,7 @@ func extractFunctions(f *ast.File) []string {
 			}
 		}
 		if fl["handler"] == nil {
-			die(what, "entry at %s has no handler field", at(e))
+			die(what, "entry at %s has no handler field", at(e.v))
 		}
 		hasExpRef := false
 		if fl["hasExpRef"] != nil {
